@@ -66,6 +66,9 @@ func checkTotal(c totalCase) (kind string, msg string, stage string) {
 	for k, v := range c.FilesHex {
 		files[k] = hexDec(v)
 	}
+	for k, v := range files {
+		files[k] = strings.ReplaceAll(v, "{ROOT}", dir) // absolute import paths name the scratch directory
+	}
 	run.WriteFiles(dir, files)
 	c13PoolMu.Lock()
 	defer c13PoolMu.Unlock()
@@ -177,6 +180,9 @@ func TestC13(t *testing.T) {
 			{Files: map[string]string{"main.tsh": "import a \"a.tsh\"\n", "a.tsh": "import b \"b.tsh\"\n", "b.tsh": "import a \"a.tsh\"\n"}, Main: "main.tsh", Note: "cycle-below-main"},
 			{Files: map[string]string{"main.tsh": "import a \"a.tsh\"\n", "a.tsh": "import b \"b.tsh\"\n", "b.tsh": "import c \"c.tsh\"\n", "c.tsh": "import a \"a.tsh\"\n"}, Main: "main.tsh", Note: "3-cycle"},
 			{Files: map[string]string{"main.tsh": "import a \"missing.tsh\"\n"}, Main: "main.tsh", Note: "missing-import"},
+			{Files: map[string]string{"main.tsh": "import b \"{ROOT}/./b.tsh\"\nprint(1)\n", "b.tsh": "import b \"{ROOT}/./b.tsh\"\nprint(2)\n"}, Main: "main.tsh", Note: "self-import-by-unclean-absolute-path"},
+			{Files: map[string]string{"main.tsh": "import b \"{ROOT}//b.tsh\"\n", "b.tsh": "import c \"{ROOT}/sub/../c.tsh\"\n", "c.tsh": "import b \"{ROOT}/./b.tsh\"\n"}, Dirs: []string{"sub"}, Main: "main.tsh", Note: "2-cycle-by-unclean-absolute-paths"},
+			{Files: map[string]string{"main.tsh": "import m \"{ROOT}/./main.tsh\"\n"}, Main: "main.tsh", Note: "main-self-import-by-unclean-absolute-path"},
 			{Files: map[string]string{"main.tsh": "import a \"d\"\n"}, Dirs: []string{"d"}, Main: "main.tsh", Note: "directory-import"},
 			{Files: map[string]string{"x.tsh": "print(1)\n"}, Main: "main.tsh", Note: "missing-main"},
 			{Files: map[string]string{"x.tsh": "print(1)\n"}, Dirs: []string{"main.tsh"}, Main: "main.tsh", Note: "main-is-directory"},
@@ -376,7 +382,9 @@ func TestC13(t *testing.T) {
 				if nimp > 0 {
 					sb.WriteString("import (\n")
 					for k := 0; k < nimp; k++ {
-						target := []string{"main.tsh", "a.tsh", "b.tsh", "sub/c.tsh", "missing.tsh", "sub", "strings", "../a.tsh", "c.tsh"}[gen.Uniform(0, 8).Draw(t, "target")]
+						// relative targets, and ABSOLUTE ones in clean and unclean spellings (a cycle is a cycle however the path is written)
+						target := []string{"main.tsh", "a.tsh", "b.tsh", "sub/c.tsh", "missing.tsh", "sub", "strings", "../a.tsh", "c.tsh",
+							"./a.tsh", "sub/../b.tsh", "{ROOT}/a.tsh", "{ROOT}/./b.tsh", "{ROOT}//main.tsh", "{ROOT}/sub/../a.tsh", "{ROOT}/sub/./c.tsh"}[gen.Uniform(0, 15).Draw(t, "target")]
 						alias := []string{"x", "y", "z", ""}[gen.Uniform(0, 3).Draw(t, "alias")]
 						if alias != "" {
 							alias += fmt.Sprint(k) + " "
